@@ -1,5 +1,5 @@
 """C12 — Hangul syllables compose/decompose by Unicode arithmetic, per font support."""
-import os, sys
+import os, struct, sys, unicodedata
 import vlib
 
 MODULE = "RbModel.Props.C12"
@@ -199,6 +199,112 @@ def finding_class(chunk, has):
 
 
 # ---------------------------------------------------------------------------------------------------
+# directions and table environments
+#
+# The property speaks about runs that the Hangul shaper shapes.  Which shaper a plan uses is decided from the script, the
+# direction and the font's tables (ot_shape.rs, planner): a font with an AAT 'morx' table is shaped by AAT — the script's
+# shaper is replaced by a shaper that does nothing — for horizontal text, and for vertical text only when the font has no GSUB
+# (harfbuzz#2124: GSUB is preferred for vertical text).  `judged` below is that rule, written from the HarfBuzz issue text and
+# not from the crate: runs it excludes are OUTSIDE the property's quantifier (counted, never judged); on every other run —
+# every direction, every combination of GSUB / morx / kern / GPOS / GDEF — the promise is the same as for a bare cmap font.
+
+DIRS = "lrtb"                       # LTR, RTL, TTB, BTT
+
+
+def horizontal(d): return d in "lr"
+def backward(d): return d in "rb"
+
+
+def judged(base_has_gsub, env, d):
+    has_morx = "morx" in env
+    has_gsub = base_has_gsub or "GSUB" in env
+    return not (has_morx and (horizontal(d) or not has_gsub))
+
+
+def is_continuation(c):
+    """grapheme continuation among the code points these searches use = combining marks (UAX #29 Extend ∩ alphabet)"""
+    return unicodedata.category(chr(c)).startswith("M")
+
+
+def shaping_order(cps, d):
+    """the text as the shaper sees it: a run against the script's native direction (RTL / BTT for Hangul) is reversed
+    grapheme by grapheme (base + following marks stay together) before shaping, and the glyphs come out in that order"""
+    if not backward(d):
+        return list(cps)
+    groups = []
+    for c in cps:
+        if groups and is_continuation(c): groups[-1].append(c)
+        else: groups.append([c])
+    return [c for g in reversed(groups) for c in g]
+
+
+def sfnt_tables(data):
+    out = {}
+    for i in range(struct.unpack(">H", data[4:6])[0]):
+        tag, _, off, ln = struct.unpack(">4sIII", data[12 + 16 * i:28 + 16 * i])
+        out[tag.decode("latin-1")] = data[off:off + ln]
+    return out
+
+
+# environments for the cmap-only fonts (FONTS) and for the GSUB-feature fonts (GSUB_FONTS, which have a GSUB already).
+# 'morx0' = a morx with one chain and no subtable, 'morx' = a morx whose non-contextual subtable would replace every glyph
+# 1..1200 by its successor in all directions if it were applied: on a run GSUB shapes it must have no effect at all.
+ENVS = ["", "GSUB", "GSUB+morx0", "GSUB+morx", "morx0", "kern", "GPOS", "GDEF", "GSUB+morx+kern+GPOS+GDEF"]
+GSUB_ENVS = ["", "morx0", "morx", "kern", "GPOS", "GDEF", "morx+kern+GPOS+GDEF"]
+_env_cache = {}
+
+
+def env_tables(env, font):
+    """extras argument of `hangul fontx` for an environment; `font` gives glyph ids (GDEF classes)"""
+    import fontbuild
+    if "static" not in _env_cache:
+        noop = {"type": 1, "flag": 0, "subtables": [{"format": 2, "coverage": [65000], "subst": [65000]}]}
+        scripts = lambda n: [{"tag": t, "default": {"required": None, "features": list(range(n))}} for t in ("DFLT", "hang")]
+        rec = {"num_glyphs": 5, "cmap": {0x41: 1},
+               "gsub": {"scripts": scripts(4), "lookups": [noop],
+                        "features": [{"tag": t, "lookups": [0]} for t in ("ccmp", "ljmo", "tjmo", "vjmo")]},
+               "gpos": {"scripts": scripts(3), "features": [{"tag": t, "lookups": [0]} for t in ("dist", "kern", "vkrn")],
+                        "lookups": [{"type": 1, "flag": 0, "subtables": [
+                            {"format": 1, "coverage": {"ranges": [(1, 60000)]}, "value": {"xAdvance": 7, "yAdvance": -3}}]}]},
+               "kern": [{"horizontal": True, "pairs": [(a, b, 10 * (a - b)) for a in range(1, 12) for b in range(1, 12)]},
+                        {"horizontal": False, "pairs": [(1, 2, -50), (27, 28, 40)]}],
+               "morx": {"version": 2, "chains": [{"default_flags": 1, "features": [], "subtables": [
+                   {"kind": "noncontextual", "all_directions": True, "format": 8, "map": {g: g + 1 for g in range(1, 1201)}}]}]}}
+        t = sfnt_tables(fontbuild.build(rec))
+        rec0 = {"num_glyphs": 5, "cmap": {0x41: 1}, "morx": {"version": 2, "chains": [{"default_flags": 0, "features": [], "subtables": []}]}}
+        _env_cache["static"] = {"GSUB": t["GSUB"], "GPOS": t["GPOS"], "kern": t["kern"], "morx": t["morx"],
+                                "morx0": sfnt_tables(fontbuild.build(rec0))["morx"]}
+    st = _env_cache["static"]
+    parts = []
+    for e in env.split("+"):
+        if e == "GDEF":
+            cls = {font.gid(c): 3 for c in TONES if font.gid(c)}
+            cls.update({font.gid(c): 1 for c in (DOTTED, 0x41, L_BASE, V_BASE, T_BASE + 1, S_BASE) if font.gid(c)})
+            data = sfnt_tables(fontbuild.build({"num_glyphs": 5, "cmap": {0x41: 1}, "gdef": {"classes": cls}}))["GDEF"]
+            parts.append("GDEF:" + data.hex())
+        else:
+            parts.append(("morx" if e.startswith("morx") else e) + ":" + st[e].hex())
+    return ",".join(parts)
+
+
+def env_font_id(f, env): return f if not env else f"{f}+{env}"
+
+
+def env_register(base_id, env, font):
+    return f"hangul fontx {env_font_id(base_id, env)} {base_id} {env_tables(env, font)}"
+
+
+def combos(envs):
+    """every (direction, environment) except the plain one the searches always run"""
+    return [(d, e) for d in DIRS for e in envs if (d, e) != ("l", "")]
+
+
+def note_env(dist, d, env, ok):
+    k = ("judged " if ok else "outside-quantifier(AAT shapes the run) ") + f"dir={d} env={env or 'none'}"
+    dist[k] = dist.get(k, 0) + 1
+
+
+# ---------------------------------------------------------------------------------------------------
 # request builders / parsers
 
 
@@ -217,9 +323,9 @@ def parse_pre(out):
     return r
 
 
-def shape_line(fid, level, flags, cps, cls):
+def shape_line(fid, level, flags, cps, cls, d="l"):
     text = ",".join(f"{c:x}:{k}" for c, k in zip(cps, cls)) or "-"
-    return f"shape {fid} l Hang - {flags} {level} - - - {text}"
+    return f"shape {fid} {d} Hang - {flags} {level} - - - {text}"
 
 
 def parse_shape(out):
@@ -477,12 +583,14 @@ def check_case(kind, fname, spec, level, cps, cls, lo, hi, got, via):
 def fmt(cps): return "<" + ",".join(f"{c:04X}" for c in cps) + ">"
 
 
-def run_enumeration(ctx, shim, name, cases, fonts, levels):
-    """every case x font, once through shape() (glyphs, clusters) and once through the hook (features)."""
+def run_enumeration(ctx, shim, name, cases, fonts, levels, nextra=2):
+    """every case x font, once through shape() (glyphs, clusters) and once through the hook (features); and `nextra` more
+    times through shape() in a drawn (direction, table environment).  For RTL / BTT the text is sent reversed (chunks and
+    contexts hold no marks), so that the shaper sees the same text and the same result is due."""
     specs = {f: Spec(FONTS[f]) for f in fonts}
-    reg = [f"hangul font {f} {FONTS[f]}" for f in fonts]
+    cmb = combos(ENVS)
     per = 400
-    groups, meta = [], []
+    groups = []
     batch = []
     for i, (kind, chunk) in enumerate(cases):
         batch.append((i, kind, chunk))
@@ -490,23 +598,38 @@ def run_enumeration(ctx, shim, name, cases, fonts, levels):
             groups.append(batch); batch = []
     if batch: groups.append(batch)
     r = ctx.rng(name)
-    glines, gmeta = [], []
+    re_ = ctx.rng(name + "/env")
+    glines, gmeta, gregs = [], [], []
     for b in groups:
-        lines = list(reg); m = []
+        lines = []; m = []; need = []
         for i, kind, chunk in b:
             cps, cls, lo, hi = wrap(r, chunk, i)
             for f in fonts:
                 for level in levels:
-                    lines.append(shape_line(f, level, 0, cps, cls)); m.append((kind, f, level, cps, cls, lo, hi, "shape()"))
-                    lines.append(pre_line(level, 0, FONTS[f], cps, cls)); m.append((kind, f, level, cps, cls, lo, hi, "hook"))
-        glines.append(lines); gmeta.append(m)
+                    lines.append(shape_line(f, level, 0, cps, cls)); m.append((kind, f, level, cps, cls, lo, hi, "shape()", "l", ""))
+                    lines.append(pre_line(level, 0, FONTS[f], cps, cls)); m.append((kind, f, level, cps, cls, lo, hi, "hook", None, None))
+                    for _ in range(nextra):
+                        d, env = re_.choice(cmb)
+                        if env and (f, env) not in need: need.append((f, env))
+                        xs, xc = (cps[::-1], cls[::-1]) if backward(d) else (cps, cls)
+                        lines.append(shape_line(env_font_id(f, env), level, 0, xs, xc, d))
+                        m.append((kind, f, level, cps, cls, lo, hi, "shape()", d, env))
+        regs = [f"hangul font {f} {FONTS[f]}" for f in fonts] + [env_register(f, e, specs[f]) for f, e in need]
+        glines.append(regs + lines); gmeta.append(m); gregs.append(regs)
     outs = vlib.run_groups(shim, glines, timeout=900)
-    total = 0; dist = {}
+    total = 0; outside = 0; dist = {}; envdist = {}
     reported = ctx.__dict__.setdefault("_c12_reported", set())
-    for lines, m, o in zip(glines, gmeta, outs):
-        for ln, (kind, f, level, cps, cls, lo, hi, via), out in zip(lines[len(reg):], m, o[len(reg):]):
+    for lines, m, regs, o in zip(glines, gmeta, gregs, outs):
+        for ln, (kind, f, level, cps, cls, lo, hi, via, d, env), out in zip(lines[len(regs):], m, o[len(regs):]):
             total += 1
             sp = specs[f]
+            if via != "hook":
+                ok = judged(False, env, d)
+                note_env(envdist, d, env, ok)
+                if not ok:
+                    outside += 1
+                    if out.startswith("ok"): continue
+                via = f"shape() dir={d} env={env or 'none'}"
             if via == "hook":
                 got = parse_pre(out)
             else:
@@ -536,15 +659,24 @@ def run_enumeration(ctx, shim, name, cases, fonts, levels):
                 if key2 in reported:
                     continue
                 reported.add(key2)
+                reg = [f"hangul font {f} {FONTS[f]}"] + ([env_register(f, env, sp)] if env else [])
                 rp = {"stage": "search", "stream": name, "kind": kind, "font": f, "font_spec": FONTS[f],
-                      "via": via, "request": ln, "register": f"hangul font {f} {FONTS[f]}",
+                      "via": via, "request": ln, "register": reg,
                       "observed": out, "text": fmt(cps), "level": level}
+                if d is not None:
+                    rp.update({"direction": d, "environment": env or "none",
+                               "text_sent": fmt(cps[::-1] if backward(d) else cps)})
                 if fnd: rp["finding"] = fnd
                 ctx.violation(msg, rp)
-    ctx.note_search(name, total, total, distribution=dist,
+    dist.update(envdist)
+    ctx.note_search(name, total, total - outside, distribution=dist,
                     rule="one request = one (syllable chunk in a small context, font, cluster level) through shape() "
                          "or through the preprocess hook, compared with the arithmetic specification written in "
-                         "tools/props/C12.py (independent of the crate and of the model); all are non-trivial")
+                         "tools/props/C12.py (independent of the crate and of the model); all judged ones are non-trivial. "
+                         "Besides LTR on the bare cmap font every case runs in drawn (direction, table environment) pairs: "
+                         "4 directions x {none, GSUB, GSUB+empty morx, GSUB+substituting morx, morx, kern, GPOS, GDEF, all}; "
+                         "'judged' pairs must give the same result, pairs where AAT shapes the run (morx and horizontal text "
+                         "or no GSUB) are outside the quantifier and only counted")
     return total
 
 
@@ -559,30 +691,47 @@ HEADS = [0x1100, 0x1112, 0x1113, 0x115F, 0xA960, 0xA97C, 0xAC00, 0xAC01, 0xAC1C,
 OTHER_MARKS = {0x0301, 0x302D}
 
 
-def whole_text_search(ctx, shim, name, texts, fonts, levels=(0,)):
+def whole_text_search(ctx, shim, name, texts, fonts, levels=(0,), nextra=2):
     """arbitrary texts: (code point, feature) sequence through the hook and glyph sequence through shape()
-    against the python rendering of the property (`spec_render`)."""
+    against the python rendering of the property (`spec_render`); through shape() LTR on the bare font and in `nextra`
+    drawn (direction, table environment) pairs — for RTL / BTT the promise is about the text in shaping order."""
     specs = {f: Spec(FONTS[f]) for f in fonts}
-    reg = [f"hangul font {f} {FONTS[f]}" for f in fonts]
-    groups, metas = [], []
+    cmb = combos(ENVS)
+    re_ = ctx.rng(name + "/env")
+    groups, metas, gregs = [], [], []
     per = 500
     for k in range(0, len(texts), per):
-        lines = list(reg); m = []
+        lines = []; m = []; need = []
         for cps, nodc in texts[k:k + per]:
             cls = list(range(len(cps)))
             for f in fonts:
                 for level in levels:
-                    lines.append(pre_line(level, nodc, FONTS[f], cps, cls)); m.append((f, cps, nodc, "hook"))
+                    lines.append(pre_line(level, nodc, FONTS[f], cps, cls)); m.append((f, cps, nodc, "hook", None, None))
                     if not any(c in OTHER_MARKS for c in cps):
-                        lines.append(shape_line(f, level, 16 if nodc else 0, cps, cls)); m.append((f, cps, nodc, "shape()"))
-        groups.append(lines); metas.append(m)
+                        lines.append(shape_line(f, level, 16 if nodc else 0, cps, cls)); m.append((f, cps, nodc, "shape()", "l", ""))
+                        for _ in range(nextra):
+                            d, env = re_.choice(cmb)
+                            if env and (f, env) not in need: need.append((f, env))
+                            lines.append(shape_line(env_font_id(f, env), level, 16 if nodc else 0, cps, cls, d))
+                            m.append((f, cps, nodc, "shape()", d, env))
+        regs = [f"hangul font {f} {FONTS[f]}" for f in fonts] + [env_register(f, e, specs[f]) for f, e in need]
+        groups.append(regs + lines); metas.append(m); gregs.append(regs)
     outs = vlib.run_groups(shim, groups, timeout=900)
     reported = ctx.__dict__.setdefault("_c12_reported", set())
-    total = 0; dist = {}
-    for lines, m, o in zip(groups, metas, outs):
-        for ln, (f, cps, nodc, via), out in zip(lines[len(reg):], m, o[len(reg):]):
+    total = 0; outside = 0; dist = {}; envdist = {}
+    for lines, m, regs, o in zip(groups, metas, gregs, outs):
+        for ln, (f, sent, nodc, via, d, env), out in zip(lines[len(regs):], m, o[len(regs):]):
             total += 1
             sp = specs[f]
+            cps = sent
+            if via != "hook":
+                ok = judged(False, env, d)
+                note_env(envdist, d, env, ok)
+                cps = shaping_order(sent, d)
+                if not ok:
+                    outside += 1
+                    if out.startswith("ok"): continue
+                via = f"shape() dir={d} env={env or 'none'}"
             want = spec_render(cps, sp, nodc)
             k = "changed" if [c for c, _ in want] != cps or any(t for _, t in want) else "unchanged"
             dist[k] = dist.get(k, 0) + 1
@@ -617,14 +766,20 @@ def whole_text_search(ctx, shim, name, texts, fonts, levels=(0,)):
                 key2 = fnd if fnd else (name, f, via)
                 if key2 in reported: continue
                 reported.add(key2)
+                reg = [f"hangul font {f} {FONTS[f]}"] + ([env_register(f, env, sp)] if env else [])
                 rp = {"stage": "search", "stream": name, "font": f, "font_spec": FONTS[f], "via": via, "request": ln,
-                      "register": f"hangul font {f} {FONTS[f]}", "observed": out, "text": fmt(cps)}
+                      "register": reg, "observed": out, "text": fmt(sent)}
+                if d is not None:
+                    rp.update({"direction": d, "environment": env or "none", "text_in_shaping_order": fmt(cps)})
                 if fnd: rp["finding"] = fnd
-                ctx.violation(f"text {fmt(cps)} on font '{f}' via {via}: {bad}", rp)
-    ctx.note_search(name, total, total, distribution=dist,
+                ctx.violation(f"text {fmt(sent)} on font '{f}' via {via}: {bad}", rp)
+    dist.update(envdist)
+    ctx.note_search(name, total, total - outside, distribution=dist,
                     rule="whole texts (range-edge code points after syllable heads; random jamo/syllable/tone strings) "
                          "through the hook (code points + features) and through shape() (glyph ids) against "
-                         "spec_render, the python rendering of the property; 'changed' = the shaper had to act")
+                         "spec_render, the python rendering of the property; 'changed' = the shaper had to act. shape() runs "
+                         "LTR on the bare font and in drawn (direction, table environment) pairs (see the enumeration's rule); "
+                         "RTL / BTT runs are judged on the text in shaping order (reversed grapheme by grapheme)")
 
 
 def edge_texts():
@@ -728,26 +883,36 @@ class GsubFont:
         return self.form(g, tag) if 1 <= g <= NJ else g
 
 
-def gsub_search(ctx, shim, texts, fonts, levels=(0,)):
+def gsub_search(ctx, shim, texts, fonts, levels=(0,), nextra=2):
     fs = [GsubFont(f) for f in fonts]
-    reg = [f"font {f.name} {f.hex}" for f in fs]
-    groups, metas = [], []
+    cmb = combos(GSUB_ENVS)
+    re_ = ctx.rng("gsub-features/env")
+    groups, metas, gregs = [], [], []
     per = max(200, (len(texts) + vlib.NPROC - 1) // vlib.NPROC)     # few groups: the registration lines are big
     for k in range(0, len(texts), per):
-        lines = list(reg); m = []
+        lines = []; m = []; need = []
         for cps, nodc in texts[k:k + per]:
             if any(c in OTHER_MARKS for c in cps): continue
             for f in fs:
                 for level in levels:
-                    lines.append(shape_line(f.name, level, 16 if nodc else 0, cps, list(range(len(cps)))))
-                    m.append((f, cps, nodc, level))
-        groups.append(lines); metas.append(m)
+                    for d, env in [("l", "")] + [re_.choice(cmb) for _ in range(nextra)]:
+                        if env and (f, env) not in need: need.append((f, env))
+                        lines.append(shape_line(env_font_id(f.name, env), level, 16 if nodc else 0, cps, list(range(len(cps))), d))
+                        m.append((f, cps, nodc, level, d, env))
+        regs = [f"font {f.name} {f.hex}" for f in fs] + [env_register(f.name, e, f) for f, e in need]
+        groups.append(regs + lines); metas.append(m); gregs.append(regs)
     outs = vlib.run_groups(shim, groups, timeout=900)
     reported = ctx.__dict__.setdefault("_c12_reported", set())
-    total = 0; dist = {"ljmo": 0, "vjmo": 0, "tjmo": 0, "untagged-texts": 0}
-    for lines, m, o in zip(groups, metas, outs):
-        for ln, (f, cps, nodc, level), out in zip(lines[len(reg):], m, o[len(reg):]):
+    total = 0; outside = 0; dist = {"ljmo": 0, "vjmo": 0, "tjmo": 0, "untagged-texts": 0}; envdist = {}
+    for lines, m, regs, o in zip(groups, metas, gregs, outs):
+        for ln, (f, sent, nodc, level, d, env), out in zip(lines[len(regs):], m, o[len(regs):]):
             total += 1
+            ok = judged(True, env, d)
+            note_env(envdist, d, env, ok)
+            if not ok:
+                outside += 1
+                if out.startswith("ok"): continue
+            cps = shaping_order(sent, d)
             want = spec_render(cps, f, nodc)
             wg = [f.glyph(c, t) for c, t in want]
             tags = [t for _, t in want]
@@ -764,21 +929,27 @@ def gsub_search(ctx, shim, texts, fonts, levels=(0,)):
                 fnd = "hangul-LV-T-without-LV-glyph" if text_in_finding_class(cps, f.has) else None
                 kk = "violating" + (":" + fnd if fnd else "")
                 dist[kk] = dist.get(kk, 0) + 1
-                key2 = fnd if fnd else ("gsub", f.name)
+                key2 = fnd if fnd else ("gsub", f.name, d, env)
                 if key2 in reported: continue
                 reported.add(key2)
-                rp = {"stage": "search", "stream": "gsub-features", "font": f.name, "gsub_font": f.name, "via": "shape()",
+                rp = {"stage": "search", "stream": "gsub-features", "font": f.name, "gsub_font": f.name,
+                      "via": f"shape() dir={d} env={env or 'none'}", "direction": d, "environment": env or "none",
+                      "register": [env_register(f.name, env, f)] if env else [],
                       "layout": f.layout, "features_to_lookups": f.features, "request": ln, "observed": out,
-                      "expected_glyphs": wg, "text": fmt(cps)}
+                      "expected_glyphs": wg, "text": fmt(sent), "text_in_shaping_order": fmt(cps)}
                 if fnd: rp["finding"] = fnd
-                ctx.violation(f"text {fmt(cps)} on GSUB font '{f.name}' level {level} via shape(): {bad}", rp)
-    ctx.note_search("gsub-features", total, total, distribution=dist,
+                ctx.violation(f"text {fmt(sent)} on GSUB font '{f.name}' level {level} via shape() dir={d} env={env or 'none'}: {bad}", rp)
+    dist.update(envdist)
+    ctx.note_search("gsub-features", total, total - outside, distribution=dist,
                     rule="shape() on fontbuild fonts whose ljmo/vjmo/tjmo lookups map each jamo glyph g to g+J / g+2J / "
                          "g+3J, in five layouts of features over lookups (one lookup per feature; all three on ONE lookup; two "
                          "share; own lookup + a lookup shared by all three; a lookup shared by tjmo and the default-on ccmp): "
                          "the output glyph ids must be those of spec_render's (code point, feature) sequence under the "
                          "OpenType reading 'a lookup acts on a glyph iff any feature referencing it is on for that glyph'; "
-                         "distribution counts the features expected over all requests")
+                         "distribution counts the features expected over all judged requests. Every text runs LTR on the font "
+                         "as built and in drawn (direction, table environment) pairs: 4 directions x {none, empty morx, "
+                         "substituting morx, kern, GPOS, GDEF, all}; with a morx table only vertical runs are judged (GSUB is "
+                         "preferred there and the morx must have no effect), horizontal ones are shaped by AAT and counted")
 
 
 def tone_search(ctx, shim, r, n):
@@ -855,6 +1026,34 @@ def tone_search(ctx, shim, r, n):
 
 
 # ---------------------------------------------------------------------------------------------------
+# the planner's shaper choice: crate (ShapePlan::new on a minimal font with the named tables) vs model (planShaper)
+
+# (Hebrew is left out: the hook `shaper_name` tells shaper records apart by collect_features / setup_masks / mark flags,
+#  which the Hebrew and the default record share)
+PLAN_SCRIPTS = ["Hang", "Thai", "Laoo", "Khmr", "Arab", "Syrc", "Deva", "Mymr", "Tibt", "Latn", "Grek", "-"]
+
+
+def plan_lines(shim):
+    """every subset of {GSUB, morx, kern, GPOS, GDEF} x 4 directions x scripts; the shaper the script is categorized to is
+    asked from the crate first (`shaper`: hb_ot_shape_complex_categorize alone; the minimal tables select no script)"""
+    tag = lambda s_: int.from_bytes(s_.encode(), "big")
+    ask = [f"shaper {tag(sc)} {di} -" for sc in PLAN_SCRIPTS if sc != "-" for di in range(4)]
+    ans = dict(zip(ask, vlib.run_lines(shim, ask, nproc=1)))
+    lines = []
+    for mask in range(32):
+        env = "".join(c for i, c in enumerate("SMKPD") if mask >> i & 1) or "-"
+        for di, d in enumerate(DIRS):
+            for sc in PLAN_SCRIPTS:
+                cat = "default" if sc == "-" else ans[f"shaper {tag(sc)} {di} -"].strip()
+                lines.append(f"hangul plan {env} {d} {sc} {cat}")
+    return lines
+
+
+def classify_plan(ln, out):
+    t = ln.split()
+    o = out.split()
+    return [f"script={t[4]}:{o[0] if o else '?'}", "apply_morx=" + (o[1] if len(o) > 1 else "?"),
+            "dir=" + t[3], "kept" if o and o[0] == t[5] else "replaced"]
 
 
 def run(ctx):
@@ -870,6 +1069,11 @@ def run(ctx):
         "the model is tied to the crate by the hangul-pre correspondence stream (hook on a bare buffer + real Face "
         "built from a cmap-format-12 font) and, for shape(), by the enumeration search",
         "that later GSUB stages only merge clusters is C02's business",
+        "which shaper runs: the planner's choice is modelled (planShaper; C12_planner_* theorems, C12_gen_planner_probe on the "
+        "compiled crate, hangul-plan correspondence); runs that AAT shapes (font has morx and the text is horizontal or the font "
+        "has no GSUB) are outside the property's quantifier: the searches count them and judge nothing there; RTL / BTT runs "
+        "are judged on the text in shaping order (HarfBuzz reverses a run against the script's native direction grapheme by "
+        "grapheme before shaping, so a conjoining sequence L V T typed in logical order is no longer one there)",
     ]
     ctx.regen()
     ctx.prove(MODULE)
@@ -884,6 +1088,7 @@ def run(ctx):
     ctx.cov["known_witness"] = {"theorem": "known_C12_LV_T_without_LV_glyph", "request": witness, "crate": got,
                                 "theorem_rhs": "ok 4352:0:1 4449:0:2 4520:1:0",
                                 "reproduces_on_crate": got == "ok 4352:0:1 4449:0:2 4520:1:0"}
+    ctx.correspond("hangul-plan", lines=plan_lines(shim), classify=classify_plan)
     ctx.correspond("hangul-pre", lines=[witness] + pre_lines(ctx.rng("pre"), ctx.budget(5000, 200000)),
                    classify=classify_pre)
     stride = ctx.budget(16, 1)
@@ -911,7 +1116,8 @@ def run(ctx):
 def replay(ctx, rp):
     shim = vlib.build_harness()
     if rp.get("stage") == "search":
-        lines = ([rp["register"]] if "register" in rp else []) + [rp["request"]]
+        reg = rp.get("register", [])
+        lines = ([reg] if isinstance(reg, str) else list(reg)) + [rp["request"]]
         if "gsub_font" in rp:
             lines = [f"font {rp['gsub_font']} {GsubFont(rp['gsub_font']).hex}"] + lines
         o = vlib.run_groups(shim, [lines], nproc=1)[0]
